@@ -39,6 +39,46 @@ def run_rules(prop: str, project: Project, tier: str, seed: int) -> Report:
     return rep
 
 
+def thorough_extras(project: Project, functions: set) -> dict:
+    """Thorough tier: (1) explicit enumeration of the acyclic entry->exit paths (loops unrolled
+    once) of every function the property's rules looked at; (2) an independent second derivation
+    of the dominance relation (reachability with the candidate dominator removed) compared with
+    the iterative dominator sets - a disagreement is an analysis error."""
+    a = Analysis(project)
+    paths = 0
+    capped = []
+    dom_checked = 0
+    disagreements = []
+    per_func = {}
+    for q in sorted(functions):
+        f = project.find_func(q)
+        if f is None:
+            continue
+        cfg = a.cfg(f)
+        ps = cfg.enumerate_paths(cfg.entry, [cfg.exit, cfg.raise_exit], limit=5000, unroll=1)
+        paths += len(ps)
+        if len(ps) >= 5000:
+            capped.append(q)
+        per_func[q] = {"nodes": len(cfg.live), "paths": len(ps)}
+        dom = cfg.dominators()
+        live = sorted(cfg.live - {cfg.exit, cfg.raise_exit})
+        for b in live:
+            if b == cfg.entry or b not in dom:
+                continue
+            reach_b = b in cfg.reach([cfg.entry])
+            if not reach_b:
+                continue
+            for d in live:
+                if d == b:
+                    continue
+                second = b not in cfg.reach([cfg.entry], avoid=[d]) if d != cfg.entry else True
+                first = d in dom[b]
+                dom_checked += 1
+                if first != second:
+                    disagreements.append(f"{q}: dominates({d},{b}) iterative={first} path-based={second}")
+    return {"paths_enumerated": paths, "path_enumeration_capped": capped, "dominance_facts_cross_checked": dom_checked, "dominance_disagreements": disagreements[:10], "per_function": per_func}
+
+
 def analyse_variant(prop: str, overrides: dict, tier: str = "quick") -> tuple:
     """(verdict, report) for an in-memory variant of the tree: 'violation' | 'holds' | 'error'."""
     try:
@@ -96,6 +136,12 @@ def main(argv: list) -> int:
 
         controls, extra = campaign.run_for_check(prop, project, tier)
         rep.extra.update(extra)
+        if tier == "thorough":
+            tx = thorough_extras(project, rep.functions_analysed)
+            rep.paths_enumerated = tx["paths_enumerated"]
+            rep.extra["thorough"] = tx
+            if tx["dominance_disagreements"]:
+                error = "dominance cross-check disagreement: " + "; ".join(tx["dominance_disagreements"][:3])
     except AnalysisError as e:
         error = str(e)
     except Exception as e:
